@@ -30,11 +30,16 @@ def check(ctx, tier):
         if o.rule == "C05.e":
             o.rule = "C09.b"
     col_counts(ctx, tk)
+    from .. import layout
+    layout.boundary_gather_rules(ctx, tk, "C09.d", [ctx.func("raggedarray.indexablearray.IndexableArray.get_column_values"), ctx.func(RA + "sum"), ctx.func(RA + "mean")])
     column_values(ctx, tk)
     coh = ctx.cached("coherence", lambda: Coherence(tk))
     fs = [RA + n for n in ("sum", "mean", "col_counts")] + ["raggedarray.indexablearray.IndexableArray.get_column_values"]
     report(coh, "C09.e", funcs=fs)
     W.report(ctx, tk, "C09.e", [ctx.func(q) for q in fs])
+    tk.purity("C09.p", [ctx.func(q) for q in ['raggedarray.RaggedArray.sum', 'raggedarray.RaggedArray.mean', 'raggedarray.RaggedArray.col_counts', 'raggedarray.indexablearray.IndexableArray.get_column_values']], "the operation does not write into its operands' buffers", content_only=True)
+    from .. import hazards as _hz, scopes as _sc
+    _hz.generic(ctx, tk, "C09.z", _sc.scope(tk, "C09"))
     return {}
 
 
